@@ -112,6 +112,120 @@ class _ShardState:
         }
 
 
+def _fuzz_child(st, sub, seed, path):
+    """Runs in a forked child that never returns: libFuzzer exits the process itself and atexit handlers do not
+    run, so the shard result is written to `path` whenever it changes materially."""
+    def dump(error=None):
+        tmp = path + ".tmp"
+        with open(tmp, "w") as f:
+            json.dump(st.result(error=error), f, default=str)
+        os.replace(tmp, path)
+
+    try:
+        sys.stderr.flush()
+        os.dup2(os.open(os.devnull, os.O_WRONLY), 2)     # atheris' instrumentation notes, libFuzzer's progress log
+        sys.path.insert(0, os.path.join(VERIF_DIR, ".deps"))
+        try:
+            import atheris
+        except ImportError:
+            st.classes["atheris-unavailable"] += 1
+            dump()
+            return
+        import hypothesis
+        from hypothesis import HealthCheck, given, settings
+        inc = tuple(sub.fuzz_include)
+        for k in list(sys.modules):   # re-import the code under test with coverage instrumentation
+            if any(k == m or k.startswith(m + ".") for m in inc):
+                del sys.modules[k]
+
+        def body(case):
+            st.run_case(case, hyp=False)
+
+        with atheris.instrument_imports(include=list(inc), enable_loader_override=False):
+            @hypothesis.seed(seed)
+            @settings(max_examples=5, database=None, deadline=None, derandomize=False, print_blob=False,
+                      phases=[hypothesis.Phase.generate], suppress_health_check=list(HealthCheck))
+            @given(sub.strategy())
+            def warm(case):
+                body(case)
+            try:
+                warm()          # lazy imports inside check() happen here, instrumented
+            except Violation:
+                dump()
+                return
+
+        @settings(database=None, deadline=None, suppress_health_check=list(HealthCheck))
+        @given(sub.strategy())
+        def test(case):
+            body(case)
+
+        execs = [0]
+
+        def one(data):
+            execs[0] += 1
+            try:
+                test.hypothesis.fuzz_one_input(data)
+            except Violation:
+                st.classes["atheris-execs"] = execs[0]
+                dump()
+                os._exit(0)
+            except BaseException:  # noqa: BLE001
+                dump(error=traceback.format_exc())
+                os._exit(0)
+            if execs[0] % 2000 == 0 or execs[0] >= sub.fuzz_runs:
+                st.classes["atheris-execs"] = execs[0]
+                dump()
+                if execs[0] >= sub.fuzz_runs:
+                    os._exit(0)
+
+        dump()
+        # starting corpus: pseudo-random blobs derived from the shard seed (an empty corpus starts from inputs too
+        # short for the larger generators, whose test body then never runs and gives libFuzzer no coverage to follow)
+        import hashlib
+        corpus = path + ".corpus"
+        os.makedirs(corpus, exist_ok=True)
+        for k, size in enumerate((64, 256, 1024, 2048, 4096, 8192, 8192, 16384)):
+            blob = b"".join(hashlib.sha256(f"{seed}:{k}:{j}".encode()).digest() for j in range(size // 32))
+            with open(os.path.join(corpus, f"seed{k}"), "wb") as f:
+                f.write(blob)
+        atheris.Setup([sys.argv[0], f"-seed={seed % (2 ** 31 - 1) + 1}", f"-runs={sub.fuzz_runs + 100}",
+                       "-max_len=16384", "-len_control=0", corpus], one)
+        atheris.Fuzz()
+    except SystemExit:
+        pass
+    except BaseException:  # noqa: BLE001
+        try:
+            dump(error=traceback.format_exc())
+        except Exception:  # noqa: BLE001
+            pass
+
+
+def _fuzz_shard(st, sub, seed):
+    import tempfile
+    fd, path = tempfile.mkstemp(prefix="vfuzz_", suffix=".json")
+    os.close(fd)
+    try:
+        pid = os.fork()
+        if pid == 0:
+            try:
+                _fuzz_child(st, sub, seed, path)
+            finally:
+                os._exit(0)
+        _, status = os.waitpid(pid, 0)
+        try:
+            with open(path) as f:
+                res = json.load(f)
+        except Exception:  # noqa: BLE001
+            res = st.result(error=f"fuzz child left no result (wait status {status})")
+        return res
+    finally:
+        import shutil
+        for q in (path, path + ".tmp"):
+            if os.path.exists(q):
+                os.unlink(q)
+        shutil.rmtree(path + ".corpus", ignore_errors=True)
+
+
 def _worker(modname, tier, sub_index, shard, base_seed):
     try:
         install_repo_path()
@@ -125,6 +239,10 @@ def _worker(modname, tier, sub_index, shard, base_seed):
                 "known_example": {}, "fail": {}, "skipped_time": 0, "trivial_sample": None, "wall": 0,
                 "seed": 0}
     try:
+        if sub.kind == "fuzz":
+            if os.environ.get("VERIF_FUZZ_RUNS"):      # development aid: shorter campaigns
+                sub.fuzz_runs = int(os.environ["VERIF_FUZZ_RUNS"])
+            return _fuzz_shard(st, sub, seed)
         if sub.kind == "enum":
             for case in sub.enumerate(shard, sub.shards):
                 try:
